@@ -442,7 +442,7 @@ func main() {
 			w.slots = append(w.slots, slot{"d1", n})
 		}
 		w.reset()
-		sub := []dirmodel.Kind{dirmodel.Absent, dirmodel.X, dirmodel.XY, dirmodel.Y, dirmodel.LnX}
+		sub := []dirmodel.Kind{dirmodel.Absent, dirmodel.X, dirmodel.XY, dirmodel.Y, dirmodel.LnX, dirmodel.HardX}
 		lowKinds := []dirmodel.Kind{dirmodel.Absent, dirmodel.X, dirmodel.XY}
 		n := len(lowKinds)
 		for range w.slots[1:] {
@@ -473,7 +473,7 @@ func main() {
 	}
 
 	r.Rule = fmt.Sprintf("states = all assignments of %d file kinds %v to the slots %v of %d directories (%d states); transitions = set one slot to another kind followed by Refresh() on the cache that was refreshed in the previous state, and back (every (state, transition) pair); "+
-		"a single cache also walks through all states in Gray-code order; 13 directory-list shapes (reversed, repeated, missing, empty, non-clean spellings) on a %d-state sub-space; up to five files in the top directory defining the same devices (3 x 5^5 states incl. symbolic links to valid Specs, fresh cache and one cache refreshed through all of them); decoy files (non-Spec names, sub-directory, directory named dir.yaml) sit in the top directory. "+
+		"a single cache also walks through all states in Gray-code order; 13 directory-list shapes (reversed, repeated, missing, empty, non-clean spellings) on a %d-state sub-space; up to five files in the top directory defining the same devices (3 x 6^5 states incl. symbolic links to valid Specs and several hard links to one file, fresh cache and one cache refreshed through all of them); decoy files (non-Spec names, sub-directory, directory named dir.yaml) sit in the top directory. "+
 		"Oracle: precedence model computed from the abstract population (dirmodel.Resolve) for ListDevices, GetDevice path/priority/definition, ListVendors, ListClasses, GetVendorSpecs, GetErrors containing every invalid file; equality with a fresh cache. "+
 		"distinct_nontrivial counts distinct states in which at least one device resolves or one file is invalid", len(kinds), kinds, slotNames, ndirs, total, 256)
 	r.Assumptions = []string{"manual-refresh configuration; the automatic-refresh configuration of the same transitions is explored under the controlled scheduler in C11",
